@@ -175,7 +175,7 @@ for _first in (True, False):
         stubs={"self.get_variable(comp_name, pop_name)": "COMP"},
         ensures=[("C13+C11.reported_number_eligible_adds_the_recorded_size_of_each_targeted_compartment",
                   "len(num_eligible['prog']) == n and all(num_eligible['prog'][i] == %s for i in range(n))" % ("SIZES[i]" if _first else "SO_FAR[i] + SIZES[i]")),
-                 ("C13+C20+C11.the_report_does_not_write_into_the_result", "num_eligible['prog'] is not comp0.vals and all(comp0.vals[i] == SIZES[i] for i in range(n))")],
+                 ("C13+C20+C11+C08.the_report_does_not_write_into_the_result", "num_eligible['prog'] is not comp0.vals and all(comp0.vals[i] == SIZES[i] for i in range(n))")],
         defined_props=["C13", "C20"])
 
 
@@ -372,3 +372,36 @@ CONTRACTS["model:Model._update_program_cache#compartments_of_one_program"] = dic
               "len(self._program_cache['comps']['prog']) == 4 and self._program_cache['comps']['prog'][0] is COMPS['a', 'x'] and self._program_cache['comps']['prog'][1] is COMPS['a', 'y'] "
               "and self._program_cache['comps']['prog'][2] is COMPS['b', 'x'] and self._program_cache['comps']['prog'][3] is COMPS['b', 'y'] and self._program_cache['comps']['other'] == ['kept']")],
     defined_props=["C13", "C11"])
+
+
+# ---- Result.export_raw, the flow rate of one link (body of the loop over the links of a population; C20: "summed aggregates equal the sum of their parts"): links that share a
+# name are SUMMED into one exported column -- a link's annualised flow is added to what the column already holds, or starts the column -- and the result's arrays are not modified
+def _env_raw_flow(existing):
+    def make(it):
+        import z3
+        from pyvc.interp import PyObjV
+        from pyvc.core import LArr
+        from pyvc import source
+
+        mm = source.load("model")
+        f, g = z3.Function("flow", z3.IntSort(), z3.RealSort()), z3.Function("column_so_far", z3.IntSort(), z3.RealSort())
+        dt = z3.Real("dt")
+        pop = PyObjV("Population", mm, {"name": "adults"})
+        par = PyObjV("Parameter", mm, {"name": "rec"})
+        src, dst = PyObjV("Compartment", mm, {"name": "inf", "pop": pop}), PyObjV("Compartment", mm, {"name": "sus", "pop": pop})
+        vals = LArr(3, lambda i: f(i if z3.is_expr(i) else z3.IntVal(i)), fresh_alloc=False)
+        link = PyObjV("Link", mm, {"name": "rec:flow", "parameter": par, "source": src, "dest": dst, "vals": vals})
+        so_far = LArr(3, lambda i: g(i if z3.is_expr(i) else z3.IntVal(i)))
+        key = ("Flow rates", "adults", "rec:flow", "Recovery (flow)")
+        self = PyObjV("Result", source.load("results"), {"dt": dt, "t": LArr(3, lambda i: 2000.0)})
+        return {"self": self, "pop": pop, "link": link, "d": ({key: so_far} if existing else {}), "KEY": key, "FLOW": vals, "SO_FAR": so_far, "dt": dt}
+
+    return make
+
+
+for _existing in (False, True):
+    CONTRACTS["results:Result.export_raw#flow_of_%s" % ("a_further_link_of_the_same_name" if _existing else "the_first_link_of_a_name")] = dict(
+        schema=schema, fragment={"iter": "pop.links"}, make_env=_env_raw_flow(_existing), requires=["dt > 0"], call_stubs={"gl": (lambda it, name: "Recovery"), "np.zeros": (lambda it, shape: __import__("pyvc.core", fromlist=["LArr"]).LArr(3, lambda i: 0.0))},
+        ensures=[("C20.links_of_the_same_name_are_summed_into_one_annualised_flow_column", "len(d) == 1 and all(d[KEY][i] * dt == %sFLOW[i] for i in range(3))" % ("SO_FAR[i] * dt + " if _existing else "")),
+                 ("C20+C08.the_links_own_array_is_not_modified", "d[KEY] is not link.vals and all(link.vals[i] == FLOW[i] for i in range(3))")],
+        defined_props=["C20"])
